@@ -4,9 +4,10 @@
    any extension bytes but cannot sign with the honest key K.
    ext classes: none; valid (K's key, K's signature over prefix||PKIX(cert key)); sigOtherKey (claims K, signed by M);
    sigOverOtherCert (K's genuine signature taken from another certificate); asn1garbage; pubkeygarbage; otherOidOnly;
-   mValid (a perfectly valid binding for the attacker's own key M). *)
+   mValid (a perfectly valid binding for the attacker's own key M); replayedExt (K's genuine extension copied verbatim from a
+   certificate this verifier accepted a moment ago, carried by a certificate with the attacker's TLS key). *)
 EXTENDS Naturals, Sequences, FiniteSets, TLC, Json, SequencesExt, IOUtils
-Ext == {"none", "valid", "sigOtherKey", "sigOverOtherCert", "asn1garbage", "pubkeygarbage", "otherOidOnly", "mValid", "criticalValid"}
+Ext == {"none", "valid", "sigOtherKey", "sigOverOtherCert", "asn1garbage", "pubkeygarbage", "otherOidOnly", "mValid", "criticalValid", "replayedExt"}
 Cases == [ncerts : {0, 1, 2}, selfsigned : {"ok", "bad"}, ext : Ext, expected : {"", "K", "M", "other"}]
 Identity(c) == IF c.ext \in {"valid", "criticalValid"} THEN "K" ELSE IF c.ext = "mValid" THEN "M" ELSE "none"
 Accept(c) == /\ c.ncerts = 1 /\ c.selfsigned = "ok" /\ Identity(c) # "none"
